@@ -167,6 +167,36 @@ func intrinsicTable() map[string]intrinsic {
 		ex.stats.Emits[ex.argStr(a[0])] = v.Val
 		return nil
 	}
+	t[vsName("Schedules")] = func(ex *Exec, fn *ssa.Function, a []Value) Value {
+		ex.noGuard("vs.Schedules")
+		n := a[0].(*smt.Term)
+		if !n.IsConst() {
+			panic(ex.unsupported("vs.Schedules needs a concrete preemption bound"))
+		}
+		ex.explore = true
+		ex.preemptLeft = int(n.Val)
+		return nil
+	}
+	t[vsName("Join")] = func(ex *Exec, fn *ssa.Function, a []Value) Value {
+		ex.noGuard("vs.Join")
+		if ex.cur != nil {
+			panic(ex.unsupported("vs.Join called from a goroutine"))
+		}
+		ex.schedule(nil)
+		return nil
+	}
+	t[vsName("Yield")] = func(ex *Exec, fn *ssa.Function, a []Value) Value {
+		ex.noGuard("vs.Yield")
+		if ex.cur != nil {
+			ex.yieldThread(nil)
+		} else {
+			ex.schedule(func() bool { return true })
+		}
+		return nil
+	}
+	t[vsName("Parked")] = func(ex *Exec, fn *ssa.Function, a []Value) Value {
+		return ex.intConst(int64(len(ex.threads)))
+	}
 	t[vsName("Trace")] = func(ex *Exec, fn *ssa.Function, a []Value) Value {
 		if v, ok := a[1].(*smt.Term); ok {
 			ex.traces = append(ex.traces, traceRec{ex.argStr(a[0]), v})
@@ -479,6 +509,10 @@ func addSync(t map[string]intrinsic) {
 		ex.storePtr(a[0], ex.ctx.BOr(old, a[1].(*smt.Term)))
 		return old
 	}
+	pp := func(h intrinsic) intrinsic {
+		return func(ex *Exec, fn *ssa.Function, a []Value) Value { ex.preemptPoint(); return h(ex, fn, a) }
+	}
+	load, store, add, swap, cas, and, or = pp(load), pp(store), pp(add), pp(swap), pp(cas), pp(and), pp(or)
 	for _, pk := range []string{"sync/atomic.", "internal/runtime/atomic."} {
 		for _, ty := range []string{"Int32", "Int64", "Uint32", "Uint64", "Uintptr", "Pointer"} {
 			t[pk+"Load"+ty] = load
@@ -529,7 +563,6 @@ func addSync(t map[string]intrinsic) {
 		}
 		return ex.ctx.False
 	}
-	noop := func(ex *Exec, fn *ssa.Function, a []Value) Value { return nil }
 	// Mutexes: lock-state cell, double lock is reported.
 	lockState := func(ex *Exec, a []Value) (string, int) {
 		ex.noGuard("mutex operation")
@@ -539,9 +572,10 @@ func addSync(t map[string]intrinsic) {
 		return k, v
 	}
 	t["(*sync.Mutex).Lock"] = func(ex *Exec, fn *ssa.Function, a []Value) Value {
+		ex.preemptPoint()
 		k, v := lockState(ex, a)
 		if v != 0 {
-			panic(ex.unsupported("deadlock: sync.Mutex locked twice (sequential mode)"))
+			ex.block(func() bool { _, v := lockState(ex, a); return v == 0 }, "sync.Mutex.Lock")
 		}
 		ex.ghost[k] = -1
 		return nil
@@ -563,9 +597,10 @@ func addSync(t map[string]intrinsic) {
 		return nil
 	}
 	t["(*sync.RWMutex).Lock"] = func(ex *Exec, fn *ssa.Function, a []Value) Value {
+		ex.preemptPoint()
 		k, v := lockState(ex, a)
 		if v != 0 {
-			panic(ex.unsupported("deadlock: sync.RWMutex.Lock while held (sequential mode)"))
+			ex.block(func() bool { _, v := lockState(ex, a); return v == 0 }, "sync.RWMutex.Lock")
 		}
 		ex.ghost[k] = -1
 		return nil
@@ -579,9 +614,11 @@ func addSync(t map[string]intrinsic) {
 		return nil
 	}
 	t["(*sync.RWMutex).RLock"] = func(ex *Exec, fn *ssa.Function, a []Value) Value {
+		ex.preemptPoint()
 		k, v := lockState(ex, a)
 		if v < 0 {
-			panic(ex.unsupported("deadlock: sync.RWMutex.RLock while write-locked (sequential mode)"))
+			ex.block(func() bool { _, v := lockState(ex, a); return v >= 0 }, "sync.RWMutex.RLock")
+			_, v = lockState(ex, a)
 		}
 		ex.ghost[k] = v + 1
 		return nil
@@ -606,11 +643,46 @@ func addSync(t map[string]intrinsic) {
 		ex.call(a[1].(*FuncV), nil)
 		return nil
 	}
-	t["(*sync.WaitGroup).Add"] = noop
-	t["(*sync.WaitGroup).Done"] = noop
-	t["(*sync.WaitGroup).Wait"] = func(ex *Exec, fn *ssa.Function, a []Value) Value { ex.runGoroutines(); return nil }
+	wgKey := func(ex *Exec, a []Value) string {
+		ex.noGuard("ghost state")
+		return fmt.Sprintf("wg:%d", ex.cellOf(a[0]).id)
+	}
+	t["(*sync.WaitGroup).Add"] = func(ex *Exec, fn *ssa.Function, a []Value) Value {
+		k := wgKey(ex, a)
+		n, _ := ex.ghost[k].(int64)
+		dt, ok := a[1].(*smt.Term)
+		if !ok || !dt.IsConst() {
+			panic(ex.unsupported("sync.WaitGroup.Add with a symbolic delta"))
+		}
+		ex.ghost[k] = n + int64(dt.Val)
+		return nil
+	}
+	t["(*sync.WaitGroup).Done"] = func(ex *Exec, fn *ssa.Function, a []Value) Value {
+		k := wgKey(ex, a)
+		n, _ := ex.ghost[k].(int64)
+		ex.ghost[k] = n - 1
+		return nil
+	}
+	t["(*sync.WaitGroup).Wait"] = func(ex *Exec, fn *ssa.Function, a []Value) Value {
+		k := wgKey(ex, a)
+		if ex.cur == nil && !ex.explore {
+			ex.runGoroutines()
+		}
+		ex.block(func() bool { n, _ := ex.ghost[k].(int64); return n <= 0 }, "sync.WaitGroup.Wait")
+		return nil
+	}
 	t["(*sync.WaitGroup).Go"] = func(ex *Exec, fn *ssa.Function, a []Value) Value {
-		ex.goq = append(ex.goq, pendingGo{a[1].(*FuncV), nil})
+		k := wgKey(ex, a)
+		n, _ := ex.ghost[k].(int64)
+		ex.ghost[k] = n + 1
+		f := a[1].(*FuncV)
+		recv := a[0]
+		done := t["(*sync.WaitGroup).Done"]
+		ex.spawn(&FuncV{Builtin: "wg.Go", Native: func(ex *Exec, _ []Value) Value {
+			ex.call(f, nil)
+			done(ex, nil, []Value{recv})
+			return nil
+		}}, nil)
 		return nil
 	}
 	t["(*sync.Pool).Get"] = func(ex *Exec, fn *ssa.Function, a []Value) Value {
@@ -645,6 +717,7 @@ func addSync(t map[string]intrinsic) {
 	// sync.Map as an engine map keyed by receiver cell
 	smap := func(ex *Exec, a []Value) *MapObj {
 		ex.noGuard("sync.Map operation")
+		ex.preemptPoint()
 		c := ex.cellOf(a[0])
 		k := fmt.Sprintf("smap:%d", c.id)
 		if m, ok := ex.ghost[k].(*MapObj); ok {
